@@ -4,9 +4,6 @@ import (
 	vp "github.com/Tnze/go-mc/internal/zzvp"
 )
 
-type vpBuf struct{ b []byte }
-
-func (w *vpBuf) Write(p []byte) (int, error) { w.b = append(w.b, p...); return len(p), nil }
 
 // RawMessage re-encodes byte for byte the value it decoded (fresh and reused).
 func VP_C02_rawmsg() {
